@@ -366,7 +366,16 @@ Definition spec_nfail (names : list (bytes * nat)) (ps : list purl) : nat :=
    kind 3 sink registry:    (3 (op..))  op = (0 #name #lowered) | (1 purl)
                                          obs ((0 cls (key..)) | (1 err (call..) (key..)) ..)
    kind 4 encoder registry: (4 (op..))  op = (0 #name) | (1 #name)
-                                         obs ((0 cls (key..)) | (1 cls (ctor-id..) (key..)) ..)            *)
+                                         obs ((0 cls (key..)) | (1 cls (ctor-id..) (key..)) ..)
+   kind 5 mixed history over both registries (ids: the op's position + 2, for factories and constructors):
+      (5 (op..))  op = (0 #name #lowered)                         RegisterSink      obs (0 cls (skey..))
+                     | (1 (purl..) nw)                             Open, closeAll    obs (<kind-0 obs> (skey..))
+                     | (2 #name ok)                                RegisterEncoder   obs (0 cls (ekey..))
+                     | (3 tk et #encoding lvl (purl..) (purl..) nw) Config.Build     obs (<kind-1 obs> (skey..) (ekey..))
+                     | (4 which flags #prefix level)               Redirect          obs <kind-2 obs>
+   blocked = (7): the operation (or the whole case) did not return within the harness's
+   watchdog; in a history the observation list ends with it.  A registry read-back that
+   does not return is (7) in place of the (key..) list.                                                    *)
 Definition dec_purl (s : sx) : purl :=
   mkU (sx_bool (sx_nth s 0)) (sx_b (sx_nth s 1)) (sx_bool (sx_nth s 2)) (sx_b (sx_nth s 3))
       (sx_bool (sx_nth s 4)) (sx_b (sx_nth s 6)) (sx_b (sx_nth s 7)) (sx_b (sx_nth s 8))
@@ -406,20 +415,22 @@ Definition spec_std (kinds : list skind) (nw : nat) : sx :=
   SL [of_nat (nw * length (filter is_std kinds)); SZ 0].
 
 (* --- kind 0 --- *)
-Definition model_open (i : sx) : sx :=
-  let names := dec_names (sx_nth i 1) in
-  let ps := map dec_purl (sx_l (sx_nth i 2)) in
-  let nw := sx_n (sx_nth i 3) in
-  let o := open (reg_all sreg0 names) ps 0 in
+(* what the harness observes of one Open: nw Writes on the combined writer, snapshot,
+   closeAll(), snapshot (or, on an error, one snapshot) *)
+Definition obs_open (o : opened) (nw : nat) : sx :=
   match o_writers o with
   | Some ws =>
-      (* harness: nw Writes on the combined writer, snapshot, closeAll(), snapshot *)
       let E1 := o_evs o ++ writes nw ws in
       let E2 := E1 ++ close_all ws in
       SL [SZ 0; of_nat (o_nerr o); SL (map enc_call (o_calls o)); stats E1 ws; stats E2 (o_sinks o); std_pair E2 (o_sinks o)]
   | None =>
       SL [SZ 1; of_nat (o_nerr o); SL (map enc_call (o_calls o)); SL []; stats (o_evs o) (o_sinks o); std_pair (o_evs o) (o_sinks o)]
   end.
+Definition model_open (i : sx) : sx :=
+  let names := dec_names (sx_nth i 1) in
+  let ps := map dec_purl (sx_l (sx_nth i 2)) in
+  let nw := sx_n (sx_nth i 3) in
+  obs_open (open (reg_all sreg0 names) ps 0) nw.
 
 Fixpoint sx_mem (x : sx) (l : list sx) : bool :=
   match l with [] => false | y :: t => sx_eqb x y || sx_mem x t end.
@@ -427,10 +438,8 @@ Definition all_in (xs ys : list sx) : bool := forallb (fun x => sx_mem x ys) xs.
 (* every listed sink: no write, closed exactly once *)
 Definition undone (s : sx) : bool := sx_eqb s (SL [SZ (sx_z (sx_nth s 0)); SZ 0; SZ 1]).
 Definition std_untouched : sx := SL [SZ 0; SZ 0].
-Definition spec_open (i o : sx) : bool :=
-  let names := dec_names (sx_nth i 1) in
-  let ps := map dec_purl (sx_l (sx_nth i 2)) in
-  let nw := sx_n (sx_nth i 3) in
+(* [names]: every registration attempted so far, in order, with its factory id *)
+Definition spec_open_at (names : list (bytes * nat)) (ps : list purl) (nw : nat) (o : sx) : bool :=
   let calls := map enc_call (spec_calls names ps) in
   if Nat.eqb (spec_nfail names ps) 0 then
     sx_eqb (sx_nth o 0) (SZ 0) && sx_eqb (sx_nth o 1) (SZ 0) && sx_eqb (sx_nth o 2) (SL calls)
@@ -441,6 +450,8 @@ Definition spec_open (i o : sx) : bool :=
     sx_eqb (sx_nth o 0) (SZ 1) && all_in (sx_l (sx_nth o 2)) calls
     && sx_eqb (sx_nth o 3) (SL []) && forallb undone (sx_l (sx_nth o 4))
     && sx_eqb (sx_nth o 5) std_untouched.
+Definition spec_open (i o : sx) : bool :=
+  spec_open_at (dec_names (sx_nth i 1)) (map dec_purl (sx_l (sx_nth i 2))) (sx_n (sx_nth i 3)) o.
 
 (* --- kind 1 --- *)
 Definition dec_cfg (i : sx) : bcfg :=
@@ -448,20 +459,20 @@ Definition dec_cfg (i : sx) : bcfg :=
       (map dec_purl (sx_l (sx_nth i 7))) (map dec_purl (sx_l (sx_nth i 8))).
 Definition cls_code (c : bcls) : Z :=
   match c with BOk => 0 | BMissingTime => 1 | BNoName => 2 | BUnknownEnc => 3 | BCtorErr => 4 | BSink => 5 | BLevel => 6 end.
-Definition model_build_with (bld : ereg -> sreg -> bcfg -> built) (i : sx) : sx :=
-  let names := dec_names (sx_nth i 1) in
-  let encs := dec_encs (sx_nth i 2) in
-  let cfg := dec_cfg i in
-  let nw := sx_n (sx_nth i 9) in
-  let b := bld (ereg_all ereg0 encs) (reg_all sreg0 names) cfg in
+(* what the harness observes of one Build: nw entries, each one Write on the output and
+   one on the error output *)
+Definition obs_build (b : built) (nw : nat) : sx :=
   let hdr := [SZ (cls_code (b_cls b)); SL (map of_nat (b_ctor b)); SL (map enc_call (b_calls b))] in
   match b_ws b with
   | Some (ws1, ws2) =>
-      (* harness: nw entries, each one Write on the output and one on the error output *)
       let E1 := b_evs b ++ writes nw ws1 ++ writes nw ws2 in
       SL (hdr ++ [stats E1 (ws1 ++ ws2); stats E1 (b_sinks b); std_pair E1 (b_sinks b)])
   | None => SL (hdr ++ [SL []; stats (b_evs b) (b_sinks b); std_pair (b_evs b) (b_sinks b)])
   end.
+Definition model_build_with (bld : ereg -> sreg -> bcfg -> built) (i : sx) : sx :=
+  let names := dec_names (sx_nth i 1) in
+  let encs := dec_encs (sx_nth i 2) in
+  obs_build (bld (ereg_all ereg0 encs) (reg_all sreg0 names) (dec_cfg i)) (sx_n (sx_nth i 9)).
 Definition model_build := model_build_with build.
 
 (* the encoder a name designates: built-ins, else the first registered non-empty name *)
@@ -482,11 +493,7 @@ Definition spec_problems (encs : list (bytes * (nat * bool))) (names : list (byt
            | None => [3%Z] | Some (_, false) => [4%Z] | Some (_, true) => [] end)
   ++ (if Nat.eqb (spec_nfail names (c_out cfg) + spec_nfail names (c_errp cfg)) 0 then [] else [5%Z])
   ++ (if c_level cfg then [] else [6%Z]).
-Definition spec_build (i o : sx) : bool :=
-  let names := dec_names (sx_nth i 1) in
-  let encs := dec_encs (sx_nth i 2) in
-  let cfg := dec_cfg i in
-  let nw := sx_n (sx_nth i 9) in
+Definition spec_build_at (names : list (bytes * nat)) (encs : list (bytes * (nat * bool))) (cfg : bcfg) (nw : nat) (o : sx) : bool :=
   let probs := spec_problems encs names cfg in
   let calls := map enc_call (spec_calls names (c_out cfg) ++ spec_calls names (c_errp cfg)) in
   let kinds := spec_kinds names (c_out cfg) ++ spec_kinds names (c_errp cfg) in
@@ -499,6 +506,8 @@ Definition spec_build (i o : sx) : bool :=
     existsb (Z.eqb (sx_z (sx_nth o 0))) probs && all_in (sx_l (sx_nth o 2)) calls
     && sx_eqb (sx_nth o 3) (SL []) && forallb undone (sx_l (sx_nth o 4))
     && sx_eqb (sx_nth o 5) std_untouched.
+Definition spec_build (i o : sx) : bool :=
+  spec_build_at (dec_names (sx_nth i 1)) (dec_encs (sx_nth i 2)) (dec_cfg i) (sx_n (sx_nth i 9)) o.
 
 (* --- kind 2 --- *)
 Definition lw_code (w : lw) : Z := match w with WUser => 0 | WZap _ => 1 | WStderr => 2 end.
@@ -621,6 +630,80 @@ Fixpoint spec_ereg_ops (encs : list (bytes * (nat * bool))) (ks : list bytes) (i
   end.
 Definition spec_ereg (i o : sx) : bool := spec_ereg_ops [] [s_console; s_json] 2 (sx_l (sx_nth i 1)) (sx_l o).
 
+(* --- an operation that never returned --- *)
+(* The harness runs every operation under a watchdog; an operation that has not
+   returned when it expires is observed as [blocked] (and the rest of the history is
+   not run).  No operation of the model blocks; the oracle rejects the marker wherever
+   it can appear. *)
+Definition blocked : sx := SL [SZ 7].
+Definition is_blocked (o : sx) : bool := sx_eqb o blocked.
+
+(* --- kind 5: mixed histories over both registries --- *)
+Definition dec_cfg5 (op : sx) : bcfg :=
+  mkB (sx_bool (sx_nth op 1)) (sx_bool (sx_nth op 2)) (sx_b (sx_nth op 3)) (sx_bool (sx_nth op 4))
+      (map dec_purl (sx_l (sx_nth op 5))) (map dec_purl (sx_l (sx_nth op 6))).
+Definition tag (op : sx) : Z := sx_z (sx_nth op 0).
+Fixpoint model_mix_ops (r : sreg) (er : ereg) (id : nat) (ops : list sx) : list sx :=
+  match ops with
+  | [] => []
+  | op :: t =>
+      if Z.eqb (tag op) 0 then
+        let '(c, r') := register r (sx_b (sx_nth op 1)) id in
+        SL [SZ 0; SZ (rres_code c); enc_keys (keys r')] :: model_mix_ops r' er (S id) t
+      else if Z.eqb (tag op) 1 then
+        SL [obs_open (open r (map dec_purl (sx_l (sx_nth op 1))) 0) (sx_n (sx_nth op 2)); enc_keys (keys r)]
+        :: model_mix_ops r er (S id) t
+      else if Z.eqb (tag op) 2 then
+        let '(c, er') := register_enc er (sx_b (sx_nth op 1)) (id, sx_bool (sx_nth op 2)) in
+        SL [SZ 0; SZ (rres_code c); enc_keys (keys er')] :: model_mix_ops r er' (S id) t
+      else if Z.eqb (tag op) 3 then
+        SL [obs_build (build er r (dec_cfg5 op)) (sx_n (sx_nth op 7)); enc_keys (keys r); enc_keys (keys er)]
+        :: model_mix_ops r er (S id) t
+      else if Z.eqb (tag op) 4 then model_redirect op :: model_mix_ops r er (S id) t
+      else SL [] :: model_mix_ops r er (S id) t
+  end.
+Definition model_mix (i : sx) : sx := SL (model_mix_ops sreg0 ereg0 2 (sx_l (sx_nth i 1))).
+
+(* spec state: every sink / encoder registration attempted so far (with the id of its
+   factory / constructor) and the keys accepted so far.  Every operation of the history
+   must have returned (no [blocked]), whatever was rejected before it; a rejected
+   registration changes no key; Open, Build and the redirection are judged exactly as
+   in kinds 0, 1 and 2 against the registrations attempted so far, and leave the keys
+   of both registries as they were. *)
+Fixpoint spec_mix_ops (names : list (bytes * nat)) (encs : list (bytes * (nat * bool)))
+    (sks eks : list bytes) (id : nat) (ops obs : list sx) : bool :=
+  match ops, obs with
+  | [], [] => true
+  | op :: t, ob :: obs' =>
+      negb (is_blocked ob) &&
+      if Z.eqb (tag op) 0 then
+        let name := sx_b (sx_nth op 1) in
+        let c := spec_reg_cls names name in
+        let sks' := if Z.eqb c 0 then sks ++ [ascii_lower name] else sks in
+        sx_eqb ob (SL [SZ 0; SZ c; enc_keys sks'])
+        && spec_mix_ops (names ++ [(name, id)]) encs sks' eks (S id) t obs'
+      else if Z.eqb (tag op) 1 then
+        spec_open_at names (map dec_purl (sx_l (sx_nth op 1))) (sx_n (sx_nth op 2)) (sx_nth ob 0)
+        && sx_eqb (sx_nth ob 1) (enc_keys sks)
+        && spec_mix_ops names encs sks eks (S id) t obs'
+      else if Z.eqb (tag op) 2 then
+        let name := sx_b (sx_nth op 1) in
+        let c := if is_nil name then 1%Z else match spec_enc encs name with Some _ => 3%Z | None => 0%Z end in
+        let eks' := if Z.eqb c 0 then eks ++ [name] else eks in
+        sx_eqb ob (SL [SZ 0; SZ c; enc_keys eks'])
+        && spec_mix_ops names (encs ++ [(name, (id, sx_bool (sx_nth op 2)))]) sks eks' (S id) t obs'
+      else if Z.eqb (tag op) 3 then
+        spec_build_at names encs (dec_cfg5 op) (sx_n (sx_nth op 7)) (sx_nth ob 0)
+        && sx_eqb (sx_nth ob 1) (enc_keys sks) && sx_eqb (sx_nth ob 2) (enc_keys eks)
+        && spec_mix_ops names encs sks eks (S id) t obs'
+      else if Z.eqb (tag op) 4 then
+        spec_redirect op ob && spec_mix_ops names encs sks eks (S id) t obs'
+      else false
+  | _, _ => false
+  end.
+Definition spec_mix (i o : sx) : bool :=
+  negb (is_blocked o) && spec_mix_ops [] [] [s_file] [s_console; s_json] 2 (sx_l (sx_nth i 1)) (sx_l o).
+
 (* --- dispatch on the case kind --- *)
 Definition model (i : sx) : sx :=
   match sx_z (sx_nth i 0) with
@@ -629,6 +712,7 @@ Definition model (i : sx) : sx :=
   | 2%Z => model_redirect i
   | 3%Z => model_sreg i
   | 4%Z => model_ereg i
+  | 5%Z => model_mix i
   | _ => SL []
   end.
 (* the pre-fix code, for the replay of the [_refuted] witnesses *)
@@ -648,8 +732,12 @@ Definition spec (i o : sx) : bool :=
   | 2%Z => spec_redirect i o
   | 3%Z => spec_sreg i o
   | 4%Z => spec_ereg i o
+  | 5%Z => spec_mix i o
   | _ => false
   end.
+(* the cases whose observation is a list with one entry per operation *)
+Definition history_kind (i : sx) : bool :=
+  match sx_z (sx_nth i 0) with 3%Z | 4%Z | 5%Z => true | _ => false end.
 
 (* well-formed cases: a known kind, and the net/url oracle's scheme is the written
    scheme lower-cased (monitored by the harness; an oracle assumption) *)
@@ -657,6 +745,13 @@ Definition wf_purl (u : purl) : bool :=
   u_abs u || u_perr u || bytes_eqb (u_scheme u) (ascii_lower (get_scheme (u_raw u))).
 Definition wf_op3 (op : sx) : bool :=
   Z.eqb (sx_z (sx_nth op 0)) 0 || wf_purl (dec_purl (sx_nth op 1)).
+Definition wf_op5 (op : sx) : bool :=
+  if Z.eqb (tag op) 0 then true
+  else if Z.eqb (tag op) 1 then forallb wf_purl (map dec_purl (sx_l (sx_nth op 1)))
+  else if Z.eqb (tag op) 2 then true
+  else if Z.eqb (tag op) 3 then
+    forallb wf_purl (map dec_purl (sx_l (sx_nth op 5))) && forallb wf_purl (map dec_purl (sx_l (sx_nth op 6)))
+  else Z.eqb (tag op) 4.
 Definition wf (i : sx) : bool :=
   match sx_z (sx_nth i 0) with
   | 0%Z => forallb wf_purl (map dec_purl (sx_l (sx_nth i 2)))
@@ -664,5 +759,6 @@ Definition wf (i : sx) : bool :=
   | 2%Z => true
   | 3%Z => forallb wf_op3 (sx_l (sx_nth i 1))
   | 4%Z => true
+  | 5%Z => forallb wf_op5 (sx_l (sx_nth i 1))
   | _ => false
   end.
